@@ -453,8 +453,42 @@ func planInline(p *Prog, pk *packages.Package, file *ast.File, tf *token.File, s
 	info := pk.TypesInfo
 	obj := info.Defs[decl.Name].(*types.Func)
 	sig := obj.Type().(*types.Signature)
-	if sig.TypeParams().Len() > 0 || sig.RecvTypeParams().Len() > 0 {
+	if sig.RecvTypeParams().Len() > 0 {
 		return nil, "generic"
+	}
+	// a generic function is written out with the type arguments of this call: parameter and
+	// result types come from the instantiated signature, and every mention of a type parameter
+	// in the body is replaced by the type argument's name
+	var typeArgs *types.TypeList
+	if sig.TypeParams().Len() > 0 {
+		var fid *ast.Ident
+		switch fun := ast.Unparen(call.Fun).(type) {
+		case *ast.Ident:
+			fid = fun
+		case *ast.SelectorExpr:
+			fid = fun.Sel
+		case *ast.IndexExpr:
+			switch x := fun.X.(type) {
+			case *ast.Ident:
+				fid = x
+			case *ast.SelectorExpr:
+				fid = x.Sel
+			}
+		case *ast.IndexListExpr:
+			switch x := fun.X.(type) {
+			case *ast.Ident:
+				fid = x
+			case *ast.SelectorExpr:
+				fid = x.Sel
+			}
+		}
+		inst, ok := info.Instances[fid]
+		isig, ok2 := inst.Type.(*types.Signature)
+		if fid == nil || !ok || !ok2 || inst.TypeArgs == nil || inst.TypeArgs.Len() != sig.TypeParams().Len() {
+			return nil, "generic (instance not resolved)"
+		}
+		typeArgs = inst.TypeArgs
+		sig = isig
 	}
 	if sig.Variadic() {
 		return nil, "variadic"
@@ -817,6 +851,46 @@ func planInline(p *Prog, pk *packages.Package, file *ast.File, tf *token.File, s
 	}
 	for _, d := range defers {
 		reds = append(reds, edit{dtf.Offset(d.Pos()) - bodyStart, dtf.Offset(d.End()) - bodyStart, ""})
+	}
+	if typeArgs != nil {
+		dinfo := info
+		if dpk, _ := p.FileOf(declFile.Pos()); dpk != nil {
+			dinfo = dpk.TypesInfo
+		}
+		badTP := ""
+		ast.Inspect(decl.Body, func(n ast.Node) bool {
+			id, ok := n.(*ast.Ident)
+			if !ok {
+				return true
+			}
+			tn, ok := dinfo.Uses[id].(*types.TypeName)
+			if !ok {
+				return true
+			}
+			tp, ok := tn.Type().(*types.TypeParam)
+			if !ok {
+				return true
+			}
+			if tp.Index() >= typeArgs.Len() {
+				badTP = "type parameter index"
+				return false
+			}
+			for _, ret := range returns {
+				if id.Pos() >= ret.Pos() && id.End() <= ret.End() {
+					badTP = "type parameter inside a return expression"
+				}
+			}
+			ts, ok2 := typeStr(typeArgs.At(tp.Index()))
+			if !ok2 {
+				badTP = "type argument not nameable in the caller's file"
+				return false
+			}
+			reds = append(reds, edit{dtf.Offset(id.Pos()) - bodyStart, dtf.Offset(id.End()) - bodyStart, ts})
+			return true
+		})
+		if badTP != "" {
+			return nil, "generic: " + badTP
+		}
 	}
 	for _, ret := range returns {
 		a, e := dtf.Offset(ret.Pos()), dtf.Offset(ret.End())
@@ -1313,11 +1387,103 @@ func (p *Prog) ResolveFieldRenames(base map[string][][2]string) map[string]strin
 			}
 		}
 	}
+	// fields moved into a sub-struct: a fresh field of the owner whose type is a struct type that
+	// did not exist on the audited tree (held by value) may carry fields that are missing from
+	// the owner; they are paired the same way (equal types, unambiguous both ways) and the nested
+	// access owner.sub.field is then analysed as owner.oldField
+	for tn, bfs := range base {
+		cfs, ok := now[tn]
+		if !ok {
+			continue
+		}
+		has := func(fs [][2]string, n string) bool {
+			for _, f := range fs {
+				if f[0] == n {
+					return true
+				}
+			}
+			return false
+		}
+		var missing [][2]string
+		for _, f := range bfs {
+			if !has(cfs, f[0]) {
+				if _, taken := out[tn+"."+f[0]]; !taken {
+					missing = append(missing, f)
+				}
+			}
+		}
+		// missing fields already paired by a plain rename are not candidates
+		paired := map[string]bool{}
+		for k, v := range out {
+			if strings.HasPrefix(k, tn+".") {
+				paired[v] = true
+			}
+		}
+		pkgPath := tn[:strings.LastIndex(tn, ".")]
+		for _, f := range cfs {
+			if has(bfs, f[0]) {
+				continue
+			}
+			// f[1] is the sub-struct's type string: pkgpath.Name of a type absent from the baseline
+			sub := f[1]
+			if _, existed := base[sub]; existed || !strings.HasPrefix(sub, pkgPath+".") {
+				continue
+			}
+			sfs, ok := now[sub]
+			if !ok {
+				continue
+			}
+			for _, g := range sfs {
+				var c [][2]string
+				for _, m := range missing {
+					if m[1] == g[1] && !paired[m[0]] {
+						c = append(c, m)
+					}
+				}
+				if len(c) != 1 {
+					continue
+				}
+				n := 0
+				for _, g2 := range sfs {
+					if g2[1] == g[1] {
+						n++
+					}
+				}
+				if n == 1 {
+					key := tn + "." + f[0] + "." + g[0]
+					out[key] = c[0][0]
+					nestedFieldAlias[key] = c[0][0]
+				}
+			}
+		}
+	}
 	for k, v := range out {
-		fieldAlias[k] = v
+		if _, nested := nestedFieldAlias[k]; !nested {
+			fieldAlias[k] = v
+		}
 	}
 	p.IndexFieldAliases()
 	return out
+}
+
+// nestedFieldAlias maps "pkgpath.Owner.sub.field" to the name the field had on the audited tree
+// when it was a direct field of Owner.
+var nestedFieldAlias = map[string]string{}
+
+// NestedFieldAlias: old name of owner.sub.field, if the field was moved into a sub-struct.
+func NestedFieldAlias(owner types.Type, sub, field string) (string, bool) {
+	if len(nestedFieldAlias) == 0 {
+		return "", false
+	}
+	if pt, ok := owner.Underlying().(*types.Pointer); ok {
+		owner = pt.Elem()
+	}
+	nt, ok := owner.(*types.Named)
+	if !ok || nt.Obj().Pkg() == nil {
+		return "", false
+	}
+	old, ok := nestedFieldAlias[nt.Obj().Pkg().Path()+"."+nt.Obj().Name()+"."+sub+"."+field]
+	return old, ok
 }
 
 // LoadBaselineFields reads tables/baseline_fields.json.
